@@ -1103,9 +1103,6 @@ impl Driver {
                 Liveness::Dead(_) if !maintained => {}
                 Liveness::Dead(reason) => {
                     // held although invalidated / replaced, after maintenance has run
-                    let fs3 = is_sync
-                        && self.cfg.ttl.is_none()
-                        && matches!((e.lm, e.la, post.valid_after), (Some(lm), Some(la), Some(va)) if lm < va && la >= va);
                     if !cur_matches && self.truth.cur(e.key).is_some() {
                         self.violate(
                             &["C01", "C10", "C11"],
@@ -1115,10 +1112,10 @@ impl Driver {
                     } else if fs3_blocked(post, e, is_sync && self.cfg.ttl.is_none()) {
                         self.violate(
                             &["C10", "C11"],
-                            "F-S3b:invalidated-entry-held:behind-entry-with-last_modified<valid_after<=last_accessed-in-access-order:no-ttl",
+                            F_S3_SIG,
                             format!(
-                                "after {} at t={}: key {} (value {}) was invalidated by invalidate_all but is still held and counted after maintenance: the access-order scan stopped at an entry in front of it whose last_accessed >= valid_after {:?} > last_modified; no time_to_live",
-                                op.to_line(), now, e.key, e.vid, post.valid_after
+                                "after {} at t={}: key {} (value {}) was invalidated by invalidate_all but is still held and counted after maintenance: the access-order purge scan stopped at an entry (this one or one in front of it) whose last_accessed >= valid_after {:?}; lm {:?}, la {:?}; no time_to_live",
+                                op.to_line(), now, e.key, e.vid, post.valid_after, e.lm, e.la
                             ),
                         );
                     } else if is_sync && self.cfg.ttl.is_none() && self.fs3_blocker_evicted(pre, post) {
@@ -1128,15 +1125,6 @@ impl Driver {
                             format!(
                                 "after {} at t={}: key {} (value {}) was invalidated by invalidate_all but is still held and counted after this maintenance run: the access-order scan stopped at an invalidated entry that had been read at or after valid_after {:?}, which the size eviction of the same run then removed; no time_to_live",
                                 op.to_line(), now, e.key, e.vid, post.valid_after
-                            ),
-                        );
-                    } else if fs3 {
-                        self.violate(
-                            &["C10", "C11"],
-                            "F-S3:invalidated-entry-held:last_modified<valid_after<=last_accessed:no-ttl",
-                            format!(
-                                "after {} at t={}: key {} (value {}) was invalidated by invalidate_all but is still held and counted after maintenance: last_modified {:?} < valid_after {:?} <= last_accessed {:?}, no time_to_live",
-                                op.to_line(), now, e.key, e.vid, e.lm, post.valid_after, e.la
                             ),
                         );
                     } else {
@@ -1316,10 +1304,11 @@ impl Driver {
     }
 }
 
-/// Is the (dead) entry `e` behind a node, in access order, whose entry was invalidated by the
-/// watermark (last_modified < valid_after) but has last_accessed >= valid_after? The purge scan
-/// stops at such a node.
-fn fs3_blocked(post: &Snap, e: &crate::cut::ESnap, applicable: bool) -> bool {
+pub const F_S3_SIG: &str = "F-S3:invalidated-entry-held:access-order-purge-scan-stopped-at-entry-with-last_accessed>=valid_after:no-ttl";
+
+/// Is the (dead) entry `e`, in access order, at or behind a node whose entry has
+/// last_accessed >= valid_after? The purge scan for invalidate_all stops at such a node.
+pub fn fs3_blocked(post: &Snap, e: &crate::cut::ESnap, applicable: bool) -> bool {
     if !applicable {
         return false;
     }
@@ -1332,13 +1321,44 @@ fn fs3_blocked(post: &Snap, e: &crate::cut::ESnap, applicable: bool) -> bool {
         None => return false,
     };
     for n in &post.probation {
+        if let Some(b) = post.entry(n.key) {
+            if b.ao.map(|x| x.0) == Some(n.addr) {
+                if let Some(la) = b.la {
+                    if la >= va {
+                        return true;
+                    }
+                }
+            }
+        }
+        if n.addr == my_addr {
+            return false;
+        }
+    }
+    false
+}
+
+pub const F_S3W_SIG: &str = "F-S3w:invalidated-entry-held:write-order-and-access-order-purge-scans-stopped-at-entries-stamped>=valid_after:ops-queued-out-of-timestamp-order";
+
+/// The write-order analogue (time_to_live configured): is `e` behind a write-order node whose
+/// entry has last_modified >= valid_after? Only racing threads can queue write ops out of
+/// timestamp order, so this never happens in single-threaded histories.
+pub fn wo_blocked(post: &Snap, e: &crate::cut::ESnap) -> bool {
+    let va = match post.valid_after {
+        Some(v) => v,
+        None => return false,
+    };
+    let my_addr = match e.wo {
+        Some(a) => a,
+        None => return false,
+    };
+    for n in &post.write_order {
         if n.addr == my_addr {
             return false;
         }
         if let Some(b) = post.entry(n.key) {
-            if b.ao.map(|x| x.0) == Some(n.addr) {
-                if let (Some(lm), Some(la)) = (b.lm, b.la) {
-                    if lm < va && la >= va {
+            if b.wo == Some(n.addr) {
+                if let Some(lm) = b.lm {
+                    if lm >= va {
                         return true;
                     }
                 }
